@@ -20,11 +20,15 @@ ASSUMPTIONS = [
     "scale-equivariant (ShiftScale is model-checked)",
     "VarNonNeg and MeanInRange are required of the implementation's own values exactly (no tolerance)",
     "recurrence_relation_m is internal and not compared",
-    "the values reach the summaries directly (DataSetSummary::update) and through PnLReturns::update (closed positions of "
-    "cost 1 whose realised PnL is the value, zeros included): `total` is judged as the running summary of all returns, "
-    "`losses` of the negative ones, pnl_raw as their sum",
+    "the values reach the summaries directly (DataSetSummary::update), through PnLReturns::update and through "
+    "TearSheetGenerator::update_from_position (closed positions of cost 1 whose realised PnL is the value, zeros included; the "
+    "instrument tear sheet's pnl_returns is what the engine keeps): `total` is judged as the running summary of all returns, "
+    "`losses` of the negative ones, pnl_raw as their sum. The exit times of these positions are NOT monotone (every third one is "
+    "delivered late, before the exits of the two delivered before it, at first before the session start): a dataset knows no "
+    "time, the order of delivery is the order of the dataset",
     "the running summaries are serialisable: a serde_json store/restore at any point (spec action Persist, a stutter) must "
     "show the same figures and leave every later figure unchanged",
+    "every tenth random dataset is a CONSTANT dataset (8..40 copies) of a value with 27-28 significant digits, judged by VarNonNeg, MeanInRange, range and zero variance only; "
     "random decimal datasets (mantissa <= 1e6, 0..8 decimal places) are judged by the laws of the specification "
     "(order-freedom, VarNonNeg, MeanInRange, shift/scale, std_dev^2 = variance) with tolerance 1e-18 * max(1, max|x|)^p",
 ]
@@ -95,7 +99,8 @@ def check(ctx):
         for k, v in info.get("arm_hits", {}).items():
             arms[k] = arms.get(k, 0) + v
         judge(ctx, results, scns, label)
-    if not ctx.violations and not all(arms.get(k) for k in ("store_restore", "runs_DataSetSummary_update", "runs_PnLReturns_update")):
+    if not ctx.violations and not all(arms.get(k) for k in ("store_restore", "runs_DataSetSummary_update", "runs_PnLReturns_update",
+                                                            "runs_TearSheetGenerator_update_from_position")):
         raise vlib.ToolError("vacuous run: a route of the dataset statistics was never driven: %s" % arms)
     ctx.cov["arm_hits"] = arms
     # arbitrary decimals of mixed magnitude (beyond the integer domain TLC enumerates), judged by the
